@@ -97,7 +97,20 @@ fn handle_end<T: EncodingContext>(
 
 pub(super) fn encode<T: EncodingContext>(ctx: &mut T) -> Result<(), DataEncodingError> {
     let mut symbols = ArrayVec::<u8, 4>::new();
-    while let Some(ch) = ctx.eat() {
+    while ctx.has_more_characters() {
+        if symbols.is_empty() && ctx.characters_left() <= 4 {
+            // End of data rule: if the rest fits as ASCII into the at most two
+            // codewords left in the symbol, do not start a new group. The
+            // planner counts on this, handle_end() does the switch.
+            let ascii_size = ascii::encoding_size(ctx.rest());
+            if ascii_size <= 2 {
+                let space = ctx.symbol_size_left(ascii_size).map(|x| x + ascii_size);
+                if matches!(space, Some(space) if space <= 2) {
+                    break;
+                }
+            }
+        }
+        let ch = ctx.eat().unwrap();
         symbols.push(ch);
 
         if symbols.len() == 4 {
